@@ -151,7 +151,14 @@ func boolLean(b bool) string {
 	return "false"
 }
 
-func websocketFacts(p *pkgInfo, w *bytes.Buffer) error {
+func websocketFacts(p *pkgInfo, out *bytes.Buffer) error {
+	sec := &sections{w: out}
+	sec.run("table of valid received close codes (C14)", func(w *bytes.Buffer) error { return websocketFactsCloseCodes(p, w) })
+	sec.run("write lock discipline (C15)", func(w *bytes.Buffer) error { return websocketFactsLocking(p, w) })
+	return sec.err()
+}
+
+func websocketFactsCloseCodes(p *pkgInfo, w *bytes.Buffer) error {
 	// ---- validReceivedCloseCodes ----
 	var lit *ast.CompositeLit
 	for _, f := range p.files {
@@ -200,7 +207,10 @@ func websocketFacts(p *pkgInfo, w *bytes.Buffer) error {
 	if fd := p.funcDecl("", "isValidReceivedCloseCode"); fd == nil {
 		return fmt.Errorf("func isValidReceivedCloseCode not found")
 	}
+	return nil
+}
 
+func websocketFactsLocking(p *pkgInfo, w *bytes.Buffer) error {
 	// ---- C15 locking facts ----
 	lws := analyseLockedWrites(p)
 	if len(lws) == 0 {
